@@ -1016,13 +1016,14 @@ def acc_coords(cx, g, gcp, case):
     return ok, f"coordinate labels x={list(xlab)[:3]} y={list(ylab)[:3]} are not the pixel centres of the view"
 
 
-def _res_ok(res, L, rel=F(1, 10**9)):
+def _res_ok(res, L, rel=F(1, 10**9), branch=None):
     """resolution against the linear part L=(a,b,d,e) of pixel->world"""
     a, b, d, e = L
     det = a * e - b * d
     if det == 0:
         return True
-    if abs(b) < F(1e-10) and abs(d) < F(1e-10):
+    st = abs(b) < F(1e-10) and abs(d) < F(1e-10) if branch is None else branch == "st"
+    if st:
         return _near(res.x, a, rel, abs(a)) and _near(res.y, e, rel, abs(e))
     n2, be2 = a * a + d * d, b * b + e * e
     return res.x > 0 and abs(F(float(res.x)) ** 2 - n2) <= 2 * rel * n2 and \
@@ -1042,11 +1043,11 @@ def acc_resolution(cx, g, gcp, case):
         BA = fa_mul(Bm, A)
         L = (BA[0], BA[1], BA[3], BA[4])
         rel = F(1, 10**6)
-        # is_affine_st is applied to the *fitted* linear part: tiny fit noise in b, d must not decide the branch
+        # is_affine_st is applied to the *fitted* linear part: when fit noise in b, d decides the branch, both the
+        # axis-aligned reading (a, e) and the decomposition (|col 1|, det/|col 1|) are accepted
         if max(abs(L[1]), abs(L[2])) < F(1, 10**6) * max(abs(L[0]), abs(L[3])):
-            L = (L[0], F(0), F(0), L[3])
-        elif min(abs(L[1]), abs(L[2])) < F(1e-9):
-            return True, ""
+            ok = _res_ok(res, L, rel, "st") or _res_ok(res, L, rel, "rot")
+            return ok, f"resolution {res} is neither (a, e) nor the decomposed pixel size of linear part {tuple(map(float, L))}"
     return _res_ok(res, L, rel), f"resolution {res} is not the pixel size of the view's pixel->world map (linear part {tuple(map(float, L))})"
 
 
@@ -1272,6 +1273,27 @@ def run(R: Run):
     rng = R.rng
     cxE, cxF = Ctx(R, True), Ctx(R, False)
 
+    # ---------- accessor table: every live public name is known to the model and to the checkers
+    accessor_table_lines(R, GB, GCP)
+
+    # ---------- chains of 2-3 view ops; every public accessor is evaluated on every VIEW of the chain
+    CH_OPS = ["crop2", "crop2", "crop1", "pad", "pad", "ztos", "ztos", "zout", "flipx", "flipy", "tpix", "rot", "cpix",
+              "left", "bottom", "sdown", "buf", "mul", "rmul", "resize", "padwh", "ztor"]
+    for exact in (True, False):
+        cx = cxE if exact else cxF
+        for _ in range(R.pick(220, 2200)):
+            g, cls = gen_gbox_exact(rng, GB, Affine) if exact else gen_gbox_float(rng, GB, Affine)
+            if rng.random() < 0.15:
+                check_accessors(cx, g)
+            for step in range(rng.choice([2, 3])):
+                op = rng.choice(CH_OPS)
+                corr = exact and narrow(tuple(g._affine)[:6], 30)
+                g2 = run_op(R, ops, cx if corr or not exact else cxF, op, g, corr, cls + f"|chain{step}")
+                if g2 is None or min(g2.shape) <= 0 or max(g2.shape) > 3000:
+                    break
+                g = g2
+                check_accessors(cx if narrow(tuple(g._affine)[:6], 30) else cxF, g)
+
     # ---------- exact stream: random geoboxes x every op
     for _ in range(R.pick(1200, 9000)):
         g, cls = gen_gbox_exact(rng, GB, Affine, allow_zero=True)
@@ -1469,21 +1491,38 @@ def run(R: Run):
     R.searchers.append(searcher)
 
 
+def build_gcp_mapping(GCP, ny, nx, B, affine_gcps, crs="EPSG:32633"):
+    """control points on a 4x4 grid over the image, world = B(pixel) (+ a smooth distortion unless affine_gcps)"""
+    pix = np.asarray([(x, y) for x in np.linspace(0, nx, 4) for y in np.linspace(0, ny, 4)], dtype="float64")
+    wld = np.asarray([B * (float(x), float(y)) for x, y in pix], dtype="float64")
+    if not affine_gcps:
+        wld = wld + 0.5 * np.sin(pix / max(nx, ny) * 2.0)  # smooth distortion
+    return GCP.GCPMapping(pix, wld, crs)
+
+
 def gcp_stream(R: Run, ops: Ops, cxE: Ctx, cxF: Ctx):
     GB, GCP, Affine, TNI = ops.GB, ops.GCP, ops.Affine, ops.TNI
     rng = R.rng
-    for it in range(R.pick(40, 300)):
+    for it in range(R.pick(60, 400)):
         ny, nx = rng.randint(2, 40), rng.randint(2, 40)
-        B = Affine(30.0 * rng.choice([1, 0.5, 2]), rng.choice([0, 0, 3.0]), 5e5 + rng.randint(0, 1000), rng.choice([0, 0, -2.0]),
-                   -30.0 * rng.choice([1, 0.5, 2]), 6e6 - rng.randint(0, 1000))
+        kind = rng.choice(["st", "shear", "rot", "rot", "mirror"])
+        sx, sy = 30.0 * rng.choice([1, 0.5, 2]), -30.0 * rng.choice([1, 0.5, 2, 1.5])
+        if kind == "st":
+            L = Affine.scale(sx, sy)
+        elif kind == "shear":
+            L = Affine(sx, 3.0, 0, -2.0, sy, 0)
+        elif kind == "mirror":
+            L = Affine.scale(-sx, -sy)
+        else:
+            L = Affine.rotation(rng.choice([30, -17.5, 90, 211, rng.uniform(-180, 180)])) * Affine.scale(sx, sy)
+        B = Affine.translation(5e5 + rng.randint(0, 1000), 6e6 - rng.randint(0, 1000)) * L
         affine_gcps = rng.random() < 0.6
-        pix = np.asarray([(x, y) for x in np.linspace(0, nx, 4) for y in np.linspace(0, ny, 4)], dtype="float64")
-        wld = np.asarray([B * (float(x), float(y)) for x, y in pix], dtype="float64")
-        if not affine_gcps:
-            wld = wld + 0.5 * np.sin(pix / max(nx, ny) * 2.0)  # smooth distortion
-        mapping = GCP.GCPMapping(pix, wld, "EPSG:32633")
+        mapping = build_gcp_mapping(GCP, ny, nx, B, affine_gcps)
+        gctx = {"mapping": mapping, "B": fa(B) if affine_gcps else None,
+                "desc": f"{ny} {nx} {enc_aff(B)} {int(affine_gcps)}"}
         g0 = GCP.GCPGeoBox((ny, nx), mapping)
         g = g0
+        check_accessors(cxF, g0, gctx)
         gcp_bbox_oracle(R, g0)
         if it % 10 == 0:
             gcp_zoom_to_res_oracle(R, g0, B)
@@ -1546,6 +1585,8 @@ def gcp_stream(R: Run, ops: Ops, cxE: Ctx, cxF: Ctx):
             if min(g2.shape) <= 0 or max(g2.shape) > 4000:
                 break
             g = g2
+            # every public accessor on the VIEW, against the composed pixel->world function
+            check_accessors(cxF, g, gctx)
             if step == 0:
                 gcp_bbox_oracle(R, g)
 
